@@ -23,6 +23,10 @@ def lit2(p=None, q=1, r='d', *, k=None, **kw):
   return targets.Rec('lit2', [('p', p), ('q', q), ('r', r), ('k', k)], (), dict(kw))
 
 
+def pos2(a=1, b=3, /, c=4, *rest, k=None):
+  return ('pos2', a, b, c, rest, k)
+
+
 def base_a(n=0):
   APPLIED.append(['config', 'base_a'])
   return fdl.Config(lit2, p={'x': n, 'y': [1, 2]}, q=fdl.Config(lit2, p=1))
@@ -107,6 +111,11 @@ class Gen:
 
   def cfg(self, depth):
     r = self.r
+    if r.random() < 0.2:
+      # positional-only parameters (given positionally, some left unset) and *args
+      args = [self.value(depth) for _ in range(r.randint(0, 4))]
+      kw = {n: self.value(depth) for n in ('c', 'k') if r.random() < 0.4 and not (n == 'c' and len(args) > 2)}
+      return r.choice([fdl.Config, fdl.Partial])(pos2, *args, **kw)
     kw = {n: self.value(depth) for n in ('p', 'q', 'r', 'k') if r.random() < 0.6}
     if r.random() < 0.3:
       kw['extra'] = self.value(depth)
@@ -148,7 +157,7 @@ def independent_leaves(cfg):
       names = [p[0] for p in params if p[1] not in ('vp', 'vk') and p[0] in v.__arguments__]
       names += [k for k in v.__arguments__ if k not in names]
       for n in names:
-        walk(v.__arguments__[n], (path + '.' + n) if path else n)
+        walk(v.__arguments__[n], f'{path}[{n}]' if isinstance(n, int) else ((path + '.' + n) if path else n))
     elif isinstance(v, (list, tuple)):
       for i, x in enumerate(v):
         walk(x, f'{path}[{i}]')
@@ -188,6 +197,17 @@ def run_paths(case):
   lines = printing.as_str_flattened(cfg, include_types=False).splitlines()
   str_paths = [l.split(' = ', 1)[0] for l in lines if ' = ' in l and not l.split(' = ', 1)[1].startswith('<[unset')]
   obs['str_paths_match'] = sorted(str_paths) == sorted(flat)
+  # a parameter listed as unset is unset (a positional-only parameter given by position is not)
+  unset_listed = [l.split(' = ', 1)[0] for l in lines if ' = ' in l and l.split(' = ', 1)[1].startswith('<[unset')]
+  params = list(cfg.__signature_info__.parameters.values())
+  wrongly = []
+  for name in unset_listed:
+    for i, prm in enumerate(params):
+      if prm.name == name or name == f'[{i}]':
+        key = i if prm.kind == prm.POSITIONAL_ONLY else prm.name
+        if key in cfg.__arguments__:
+          wrongly.append(name)
+  obs['unset_listed_wrongly'] = wrongly
   # write back: every leaf path is a valid override path and sets exactly that leaf
   wb = []
   items = list(flat.items())
@@ -332,6 +352,17 @@ def run_flags(case):
       obs['other_flag'] = graphs.canon(other.value) == graphs.canon(want)
     except Exception as e:
       obs['other_flag'] = f'raised {type(e).__name__}'
+  # the same flag object after unparse() (absl's FlagValues.unparse_flags): it applies the NEXT
+  # command line from scratch, like a new flag does
+  try:
+    flag.unparse()
+    flag.parse(['config:base_b', 'set:q=5'])
+    again = flag.value
+    fresh = new_flag()
+    fresh.parse(['config:base_b', 'set:q=5'])
+    obs['after_unparse'] = graphs.canon(again) == graphs.canon(fresh.value)
+  except Exception as e:
+    obs['after_unparse'] = f'raised {type(e).__name__}: {e}'[:200]
   # independent expectation: the fold over the command line
   del APPLIED[:]
   cur = None
@@ -569,6 +600,9 @@ def oracle(case, real):
     if real.get('other_flag', True) is not True:
       return {'what': 'a second flag with pending directives did not keep its own command line',
               'observed': real['other_flag']}
+    if real.get('after_unparse', True) is not True:
+      return {'what': 'after unparse() the flag does not apply the next command line like a new flag',
+              'observed': real['after_unparse']}
     if real['config_str_roundtrip'] is not True:
       return {'what': 'a configuration serialized into a flag value does not parse back to an equal one',
               'observed': real['config_str_roundtrip']}
@@ -586,6 +620,9 @@ def oracle(case, real):
     return {'what': 'a printed path does not resolve to its leaf', 'paths': real['unresolvable'][:3]}
   if not real['str_paths_match']:
     return {'what': 'as_str_flattened and as_dict_flattened list different leaves'}
+  if real.get('unset_listed_wrongly'):
+    return {'what': 'as_str_flattened lists a parameter as unset although it has a value (it is listed twice)',
+            'parameters': real['unset_listed_wrongly']}
   if real['write_back_failures']:
     return {'what': 'writing path=repr(value) back does not set exactly that leaf',
             'failures': real['write_back_failures'][:3]}
